@@ -147,10 +147,11 @@ def _groups(ctx, units, report):
     n = 0
     for g in lib:
         c = lib[g].get('thermochem')
-        if c is None or c.ND_H_ref is None or c.ND_S_ref is None or not c.ND_Cp_data:
+        if c is None:
             continue
+        # (groups with only part of the data too: every property they can give obeys the same relation)
         n += 1
-        if n % 7:
+        if n % 5:
             continue
         for T in (298.15, 700.0):
             for u in units:
